@@ -99,7 +99,7 @@ func execKeys(c *ctx, in ev) []ev {
 	case "KeyId":
 		kind, name := gS(in, "kind"), gS(in, "name")
 		r := newRand(c.seed, "keyid-"+name)
-		out := ev{"op": "KeyId", "kind": kind, "name": name, "n": B(nil), "e": B(nil)}
+		out := ev{"op": "KeyId", "kind": kind, "name": name, "n": B(nil), "e": B(nil), "type": 0, "encap_eq": true}
 		var pub, keyID []byte
 		var trunc int
 		evs := []ev{}
@@ -108,6 +108,7 @@ func execKeys(c *ctx, in ev) []ev {
 			iss := type1.NewBasicPrivateIssuer(p384Key(c.seed, name))
 			pub, _ = iss.TokenKey().MarshalBinary()
 			keyID = iss.TokenKeyID()
+			out["type"] = int(iss.Type())
 			st, err := type1.NewBasicPrivateClient().CreateTokenRequest(randBytes(r, 8), randNonce(r), keyID, iss.TokenKey())
 			if err != nil {
 				panic(err)
@@ -117,6 +118,7 @@ func execKeys(c *ctx, in ev) []ev {
 			iss := type5.NewBatchedPrivateIssuer(ristrettoKey(c.seed, name))
 			pub, _ = iss.TokenKey().MarshalBinary()
 			keyID = iss.TokenKeyID()
+			out["type"] = int(iss.Type())
 			st, err := type5.NewBatchedPrivateClient().CreateTokenRequest(randBytes(r, 8), [][]byte{randNonce(r)}, keyID, iss.TokenKey())
 			if err != nil {
 				panic(err)
@@ -130,6 +132,7 @@ func execKeys(c *ctx, in ev) []ev {
 			iss := type2.NewBasicPublicIssuer(key)
 			pub, _ = util.MarshalTokenKeyPSSOID(iss.TokenKey())
 			keyID = iss.TokenKeyID()
+			out["type"] = int(iss.Type())
 			st, err := type2.NewBasicPublicClient().CreateTokenRequest(randBytes(r, 8), randNonce(r), keyID, iss.TokenKey())
 			if err != nil {
 				panic(err)
@@ -141,6 +144,13 @@ func execKeys(c *ctx, in ev) []ev {
 			w := newT3World(key, c.seed, map[string]string{"o": "a"})
 			pub, _ = util.MarshalTokenKeyPSSOID(w.issuer.TokenKey())
 			keyID = w.issuer.TokenKeyID()
+			out["type"] = int(w.issuer.Type())
+			// a name key pair made twice from one seed is equal to itself and differs from one made from another seed
+			if ka, err := type3.CreatePrivateEncapKeyFromSeed(hashBytes(c.seed, "encap-a", 32)); err == nil {
+				kb, _ := type3.CreatePrivateEncapKeyFromSeed(hashBytes(c.seed, "encap-a", 32))
+				kc, _ := type3.CreatePrivateEncapKeyFromSeed(hashBytes(c.seed, "encap-c", 32))
+				out["encap_eq"] = ka.IsEqual(kb) && !ka.IsEqual(kc)
+			}
 			out["n"], out["e"] = B(key.N.Bytes()), B(beInt(key.E))
 			st, err := type3.NewRateLimitedClientFromSecret(p384Scalar(c.seed, "c-"+name)).CreateTokenRequest(
 				randBytes(r, 8), randNonce(r), p384Scalar(c.seed, "b-"+name), keyID, w.issuer.TokenKey(), "o", w.issuer.NameKey())
